@@ -540,7 +540,12 @@ class Emulsion(list):
         dist, index = tree.query(positions, 2)
 
         if subtract_radius:
-            return dist[:, 1] - self.data["radius"][index].sum(axis=1)  # type: ignore
+            # the two nearest points contain the droplet itself unless further droplets
+            # have exactly the same center, so we pick a neighbor that is not the droplet
+            is_self = index[:, 0] == np.arange(len(self))
+            neighbor = np.where(is_self, index[:, 1], index[:, 0])
+            radii = self.data["radius"]
+            return dist[:, 1] - radii - radii[neighbor]  # type: ignore
         else:
             return dist[:, 1]  # type: ignore
 
